@@ -56,6 +56,7 @@ package model
 //@   ensures[C20] nameless-noop: useCase.UseCaseName == nil ==> u.UseCaseSupport == S0
 //@   ensures[C20] appended: useCase.UseCaseName != nil && !old(present) ==> len(u.UseCaseSupport) == len(S0) + 1 && u.UseCaseSupport[len(S0)] == useCase && forall j int :: 0 <= j && j < len(S0) ==> u.UseCaseSupport[j] == old(S0[j])
 //@   ensures[C20] overwritten: useCase.UseCaseName != nil && old(present) ==> u.UseCaseSupport == S0 && exists q int :: 0 <= q && q < len(S0) && old(named(S0[q], *useCase.UseCaseName)) && u.UseCaseSupport[q] == useCase && forall j int :: 0 <= j && j < len(S0) && j != q ==> u.UseCaseSupport[j] == old(S0[j])
+//@   ensures[C20] locks: locksUnchanged() && onlyAcquires(uciMux)
 //@   modifies u.UseCaseSupport, u.UseCaseSupport[len(u.UseCaseSupport)], cells(UseCaseSupportType), held
 
 //@ func (*UseCaseInformationDataType).Remove
@@ -65,6 +66,7 @@ package model
 //@   filter F loop 0 src S0 keep kept
 //@   ensures[C20] view: len(u.UseCaseSupport) == Fcnt(len(S0)) && forall j int :: 0 <= j && j < len(S0) && kept(S0[j]) ==> u.UseCaseSupport[Fcnt(j)] == old(S0[j])
 //@   ensures[C20] gone: forall m int :: 0 <= m && m < len(u.UseCaseSupport) ==> !named(u.UseCaseSupport[m], useCaseName)
+//@   ensures[C20] locks: locksUnchanged() && onlyAcquires(uciMux)
 //@   modifies u.UseCaseSupport, held
 //@   loop 0 invariant len: len(usecases) == Fcnt($k)
 //@   loop 0 invariant elems: forall j int :: 0 <= j && j < $k && kept($s[j]) ==> usecases[Fcnt(j)] == $s[j]
@@ -88,6 +90,7 @@ package model
 //@   define kept(info) = !(info.Address != nil && deepEqual(*info.Address, address))
 //@   filter F loop 0 src I0 keep kept
 //@   ensures[C20] view: len(n.UseCaseInformation) == Fcnt(len(I0)) && forall j int :: 0 <= j && j < len(I0) && kept(I0[j]) ==> n.UseCaseInformation[Fcnt(j)] == old(I0[j])
+//@   ensures[C20] locks: locksUnchanged() && onlyAcquires(nmMux, uciMux)
 //@   modifies n.UseCaseInformation, held
 //@   loop 0 invariant len: len(usecaseInfo) == Fcnt($k)
 //@   loop 0 invariant elems: forall j int :: 0 <= j && j < $k && kept($s[j]) ==> usecaseInfo[Fcnt(j)] == $s[j]
@@ -105,7 +108,9 @@ package model
 //@   ensures[C20] after-untouched-same-len: old(anyMatch) && len(n.UseCaseInformation) == len(I0) ==> forall j int :: first() < j && j < len(I0) ==> n.UseCaseInformation[j] == old(I0[j])
 //@   ensures[C20] after-untouched-dropped: old(anyMatch) && len(n.UseCaseInformation) == len(I0) - 1 ==> forall j int :: first() < j && j < len(I0) ==> n.UseCaseInformation[j - 1] == old(I0[j])
 //@   ensures[C20] element-kept-identity: old(anyMatch) && len(n.UseCaseInformation) == len(I0) ==> n.UseCaseInformation[first()].Address == old(I0[first()].Address) && n.UseCaseInformation[first()].Actor == old(I0[first()].Actor) && forall m int :: 0 <= m && m < len(n.UseCaseInformation[first()].UseCaseSupport) ==> !named(n.UseCaseInformation[first()].UseCaseSupport[m], useCaseName)
+//@   ensures[C20] locks: locksUnchanged() && onlyAcquires(nmMux, uciMux)
 //@   modifies n.UseCaseInformation, held
+//@   loop 0 invariant locks: locksUnchangedPlus(nmMux) && onlyAcquires(nmMux, uciMux)
 //@   loop 0 invariant idx: usecaseIndex == first()
 //@   loop 0 invariant prefix: $k <= first() ==> len(usecaseInfo) == $k
 //@   loop 0 invariant prefix-elems: forall j int :: 0 <= j && j < $k && j < first() ==> usecaseInfo[j] == $s[j]
@@ -123,6 +128,7 @@ package model
 //@   ensures[C20] new-element: !old(anyElem) ==> len(n.UseCaseInformation) == len(I0) + 1 && (forall j int :: 0 <= j && j < len(I0) ==> n.UseCaseInformation[j] == old(I0[j])) && ucMatch(n.UseCaseInformation[len(I0)], address, actor, "") && len(n.UseCaseInformation[len(I0)].UseCaseSupport) == 1 && named(n.UseCaseInformation[len(I0)].UseCaseSupport[0], useCaseName) && *n.UseCaseInformation[len(I0)].UseCaseSupport[0].UseCaseAvailable == useCaseAvailable && *n.UseCaseInformation[len(I0)].UseCaseSupport[0].UseCaseVersion == useCaseVersion
 //@   ensures[C20] existing-element: old(anyElem) ==> len(n.UseCaseInformation) == len(I0) && (forall j int :: 0 <= j && j < len(I0) && j != first() ==> n.UseCaseInformation[j] == old(I0[j])) && n.UseCaseInformation[first()].Address == old(I0[first()].Address) && n.UseCaseInformation[first()].Actor == old(I0[first()].Actor)
 //@   ensures[C20] existing-element-has-it: old(anyElem) ==> exists q int :: 0 <= q && q < len(n.UseCaseInformation[first()].UseCaseSupport) && named(n.UseCaseInformation[first()].UseCaseSupport[q], useCaseName) && *n.UseCaseInformation[first()].UseCaseSupport[q].UseCaseAvailable == useCaseAvailable && *n.UseCaseInformation[first()].UseCaseSupport[q].UseCaseVersion == useCaseVersion
+//@   ensures[C20] locks: locksUnchanged() && onlyAcquires(nmMux, uciMux)
 //@   modifies n.UseCaseInformation, n.UseCaseInformation[len(n.UseCaseInformation)], cells(UseCaseInformationDataType), cells(UseCaseSupportType), held
 
 // ---------------------------------------------------------------------------------------
